@@ -522,9 +522,6 @@ func (e *schedEngine) statusDump() string {
 func (e *schedEngine) posthoc(real *scheduler.ExecutionGraph, res *RunResult) {
 	c := e.c
 	cancelled := e.cancelSeen || e.g.HasMissingCond()
-	if !e.returned {
-		return
-	}
 	var names []string
 	for n := range e.stages {
 		names = append(names, n)
@@ -532,6 +529,9 @@ func (e *schedEngine) posthoc(real *scheduler.ExecutionGraph, res *RunResult) {
 	sort.Strings(names)
 	// C03: nothing left waiting/running (running never, waiting only when cancelled)
 	for _, n := range names {
+		if !e.returned {
+			break
+		}
 		st := statusName(e.stages[n].ReadStatus())
 		if st == "running" {
 			c.Violate("C03", "left-running", "stage %s is still Running after Schedule returned", n)
@@ -541,7 +541,7 @@ func (e *schedEngine) posthoc(real *scheduler.ExecutionGraph, res *RunResult) {
 		}
 	}
 	for _, n := range names {
-		if e.enters[n] > 0 {
+		if e.enters[n] > 0 && e.returned {
 			if _, ok := e.exits[n]; !ok {
 				c.Violate("C03", "return-before-exit", "Schedule returned while the task of stage %s is still executing", n)
 			}
@@ -570,7 +570,7 @@ func (e *schedEngine) posthoc(real *scheduler.ExecutionGraph, res *RunResult) {
 			}
 		}
 		gotErr := e.retErr != "nil"
-		if gotErr != m.Err[e.g.Name] {
+		if e.returned && gotErr != m.Err[e.g.Name] {
 			return false, fmt.Sprintf("Schedule returned error=%v, model error=%v", gotErr, m.Err[e.g.Name])
 		}
 		return true, ""
